@@ -250,6 +250,7 @@ def run(tier):
         for a, b, c in itertools.product(["A", "A'", "B", "missQ"], repeat=3):
             programs.append([[a], [b], [c]])
     bound = 2 if tier == "quick" else 3
+    per_program_cap = 4000 if tier == "quick" else 60000   # (the unchanged tree needs at most a few hundred per program)
     schedules = 0
     sched_states = set()
     switches = 0
@@ -257,7 +258,7 @@ def run(tier):
 
     def run_sched(prog, prefix):
         spec = {"threads": [[sigma[n] for n in t] for t in prog], "prefix": prefix}
-        rc, out, err = run_process([VW, "sched", json.dumps(spec)], timeout=120)
+        rc, out, err = run_process([VW, "sched", json.dumps(spec)], timeout=30)   # (an execution of the unchanged tree takes milliseconds)
         try:
             return json.loads(out.splitlines()[-1])
         except Exception:
@@ -266,14 +267,26 @@ def run(tier):
     def explore(prog):
         nonlocal schedules, switches, replayed
         stack = [[]]
+        found = False
+        explored_here = 0
         while stack:
-            batch, stack = stack, []
+            if found:
+                # a counterexample for this thread program is on record (the one with the fewest deviations comes
+                # first); code that polls or retries under a lock makes the schedule space of a *broken* tree
+                # unbounded, so the search of this program ends here instead of enumerating every variation of it
+                break
+            if explored_here >= per_program_cap:
+                rep.caps.append({"schedules_per_thread_program_capped_at": per_program_cap, "program": prog})
+                break
+            batch, stack = stack[:256], stack[256:]
+            explored_here += len(batch)
             results = parallel_map(lambda pf: run_sched(prog, pf), batch)
             for prefix, r in zip(batch, results):
                 schedules += 1
                 label = {"threads": prog, "prefix": prefix}
                 if r.get("status") != "ok":
                     rep.violation("schedule_" + str(r.get("status")), label, {k: r.get(k) for k in ("error", "deadlock", "returncode", "stderr")})
+                    found = True
                     continue
                 logv = r["schedule"]
                 choices = [s["choice"] for s in logv]
@@ -289,6 +302,7 @@ def run(tier):
                         out = outcome(resp)
                         if out != solo[n]:
                             anyfail = True
+                            found = True
                             sigs = set()
                             if any("missQ" in t for t in prog):
                                 sigs.add("schedule_contains_loader_panic")
